@@ -115,3 +115,5 @@ reg('C15', ['u_ast'],
      'the NFA combinators called by try_from_ast are opaque stubs (signatures extracted); error-message construction and AST Display are trusted replacements',
      'MultiPatternNfa::try_from_patterns / parse_regex_syntax (the path from a pattern string to try_from_ast) are not under contract'],
     technique='Verus function contract by structural recursion over the imported AST')
+
+reg('C02', ['u_nfa'], 'WORK IN PROGRESS: Thompson layer', ['partial'])
